@@ -49,6 +49,12 @@ type RetryConfig struct {
 }
 
 func RetryWithBackoff(ctx context.Context, cfg RetryConfig, fn func() error) error {
+	// 0 means "no limit"; a negative limit is a configuration error, not another
+	// spelling of "no limit".
+	if cfg.MaxAttempts < 0 {
+		return fmt.Errorf("%w: MaxAttempts must not be negative (got %d)", ErrInvalidConfig, cfg.MaxAttempts)
+	}
+
 	attempt := 0
 
 	for {
